@@ -442,8 +442,12 @@ def check(prop, mod, tier, seed, replay, scratch, t0, lines):
         "wall_s": round(time.time() - t0, 2),
         "violations": len(violations) + (1 if status and not violations else 0),
     }
-    os.makedirs(os.path.join(VERIF, "evidence"), exist_ok=True)
-    with open(os.path.join(VERIF, "evidence", f"{prop}.json"), "w") as fh:
+    # evidence is only recorded for runs against /repo itself (mutation trials with VERIF_REPO write elsewhere)
+    evdir = os.path.join(VERIF, "evidence")
+    if os.environ.get("VERIF_REPO") and os.path.realpath(os.environ["VERIF_REPO"]) != "/repo":
+        evdir = os.path.join(scratch, "evidence-not-recorded")
+    os.makedirs(evdir, exist_ok=True)
+    with open(os.path.join(evdir, f"{prop}.json"), "w") as fh:
         json.dump(ev, fh, indent=1, default=str)
     lines.append(f"{prop} {tier}: theorems={len(thm_names)} cases={len(cases)} nontrivial-distinct={len(distinct)} "
                  f"shards={nshards} mismatches={len(mism)} violations={len(violations)} "
